@@ -2,7 +2,7 @@
 # (C06) into Coq definitions (coq/gen/BoundTablesGen.v): binary64 values as exact hexadecimal PrimFloat literals
 # (decimal literal -> nearest double exactly as the C++ compiler converts it), integer tables as Z.
 # Sources: common/include/binomial_bounds.hpp, hll/include/RelativeErrorTables-internal.hpp, hll/include/HllUtil.hpp,
-#          hll/include/CubicInterpolation-internal.hpp, cpc/include/cpc_confidence.hpp, cpc/include/icon_estimator.hpp.
+#          hll/include/CubicInterpolation-internal.hpp, hll/include/CompositeInterpolationXTable-internal.hpp, cpc/include/cpc_confidence.hpp, cpc/include/icon_estimator.hpp.
 # A table or constant that cannot be found or contains anything but numeric literals raises: a translator failure is a
 # broken proof obligation, never success. Table LENGTHS and side conditions are NOT checked here; they are Coq
 # obligations over the generated lists (coq/BoundsTables.v), so that a changed entry/length breaks a proof, not this script.
@@ -33,6 +33,23 @@ def find_array(src, name, ctype):
     if not elems or any(e == '' for e in elems):
         raise TranslateError('array %s: empty element' % name)
     return elems
+
+def find_array2d(src, name, ctype):
+    """ctype name[..][..] = { {a, b, ...}, {...}, ... };  -> list of rows (lists of literal strings)"""
+    m = re.search(r'\b%s\s+%s\s*\[[^\]]*\]\s*\[[^\]]*\]\s*=\s*\{((?:\s*\{[^{}]*\}\s*,?)+)\s*\}\s*;' % (ctype, re.escape(name)), src, flags=re.S)
+    if not m:
+        raise TranslateError('2-d array %s (%s) not found' % (name, ctype))
+    rows = []
+    for body in re.findall(r'\{([^{}]*)\}', m.group(1)):
+        elems = [e.strip() for e in body.split(',')]
+        if elems and elems[-1] == '':
+            elems.pop()
+        if not elems or any(e == '' for e in elems):
+            raise TranslateError('array %s: empty element' % name)
+        rows.append(elems)
+    if not rows:
+        raise TranslateError('array %s: no rows' % name)
+    return rows
 
 def find_scalar(src, name, ctype):
     m = re.search(r'\b%s\s+%s\s*=\s*([^;]+);' % (ctype, re.escape(name)), src)
@@ -79,7 +96,11 @@ FLOAT_TABLES = [
     ('hll/include/CubicInterpolation-internal.hpp', 'yArrComputed', r'double', 'coupon_yArr'),
     ('cpc/include/icon_estimator.hpp', 'ICON_POLYNOMIAL_COEFFICIENTS', r'double', 'icon_coefficients'),
 ]
+FLOAT_TABLES_2D = [
+    ('hll/include/CompositeInterpolationXTable-internal.hpp', 'xArray', r'double', 'composite_xArrs'),
+]
 INT_TABLES = [
+    ('hll/include/CompositeInterpolationXTable-internal.hpp', 'yStrides', r'uint32_t', 'composite_yStrides'),
     ('cpc/include/cpc_confidence.hpp', 'ICON_LOW_SIDE_DATA', r'int16_t', 'cpc_ICON_LOW_SIDE_DATA'),
     ('cpc/include/cpc_confidence.hpp', 'ICON_HIGH_SIDE_DATA', r'int16_t', 'cpc_ICON_HIGH_SIDE_DATA'),
     ('cpc/include/cpc_confidence.hpp', 'HIP_LOW_SIDE_DATA', r'int16_t', 'cpc_HIP_LOW_SIDE_DATA'),
@@ -99,6 +120,7 @@ INT_SCALARS = [
     ('hll/include/CubicInterpolation-internal.hpp', 'numEntries', r'int', 'coupon_numEntries'),
     ('hll/include/HllUtil.hpp', 'MIN_LOG_K', r'uint8_t', 'hll_MIN_LOG_K'),
     ('hll/include/HllUtil.hpp', 'MAX_LOG_K', r'uint8_t', 'hll_MAX_LOG_K'),
+    ('hll/include/CompositeInterpolationXTable-internal.hpp', 'numXArrValues', r'uint32_t', 'composite_numXArrValues'),
 ]
 
 def generate(repo):
@@ -120,6 +142,10 @@ def generate(repo):
         elems = find_array(src(rel), cname, cty)
         items = [coq_float(e, '%s[%d]' % (cname, i)) for i, e in enumerate(elems)]
         out.append('(* %s : %s, %d entries *)\nDefinition %s : list float := %s.\n' % (rel, cname, len(items), qname, fmt_list(items)))
+    for rel, cname, cty, qname in FLOAT_TABLES_2D:
+        rows = find_array2d(src(rel), cname, cty)
+        body = ';\n'.join(fmt_list([coq_float(e, '%s[%d][%d]' % (cname, r, i)) for i, e in enumerate(row)]) for r, row in enumerate(rows))
+        out.append('(* %s : %s, %d rows *)\nDefinition %s : list (list float) := [\n%s\n].\n' % (rel, cname, len(rows), qname, body))
     for rel, cname, cty, qname in INT_TABLES:
         elems = find_array(src(rel), cname, cty)
         items = [coq_int(e, '%s[%d]' % (cname, i)) for i, e in enumerate(elems)]
